@@ -6,7 +6,7 @@ from . import ser
 from .corr import Case, CaseTimeout, case_limit
 
 SKIPPED = {}
-from .inputs import try_parse
+from .inputs import shared_minmax_elements, try_parse
 
 MODELLED = ["cleanup", "unused", "projection", "duplication", "symmetry", "minmax_chains", "inline"]
 ALL = ["cleanup", "unused", "duplication", "symmetry", "minmax_chains", "sum_chains", "math", "inline", "projection"]
@@ -55,6 +55,13 @@ class ApiOptimize:
                 t = ser.prog(prg)
             except ser.Unsupported:
                 continue
+            try:
+                from ngo.normalize import preprocess
+                if shared_minmax_elements(list(preprocess(try_parse(text)))):
+                    SKIPPED["shared_elements"] = SKIPPED.get("shared_elements", 0) + 1
+                    continue
+            except Exception:  # pylint: disable=broad-except
+                pass
             ip = auto_detect_input(prg)
             op = auto_detect_output(prg)
             if rng.random() < 0.5:
